@@ -87,6 +87,8 @@ def perform(cl, values, call):
             res = ["ok", canon(apischema.deserialize(tp, d))]
         elif op == "serialize":
             res = ["ok", apischema.serialize(tp, values[ei][di])]
+        elif op == "serialize_any":  # typeless: goes through the shared Any method, which selects a method per runtime class
+            res = ["ok", apischema.serialize(values[ei][di])]
         elif op == "serialize_conv":
             res = ["ok", apischema.serialize(tp, values[ei][di], conversion=cl.conv)]
         elif op == "dschema":
@@ -136,6 +138,8 @@ def all_calls(cl, first=True):
             nd, nv = min(nd, 3), 1
         calls += [("deserialize", ei, di) for di in range(nd)]
         calls += [("serialize", ei, di) for di in range(nv)]
+        if first:
+            calls += [("serialize_any", ei, di) for di in range(nv)]
         if cl.conv is not None and first:
             calls += [("serialize_conv", ei, di) for di in range(nv)]
         if not cl.shape.get("no_schema") and first:  # schema generation does not consult the recursion analysis
@@ -469,11 +473,11 @@ def nonmono_for(mon, cl):
 def thread_programs(cl, nthreads, rng):
     """thread i enters through a different member / operation; afterwards a few more calls in random order"""
     calls = all_calls(cl, True)
-    heavy = [c for c in calls if c[0] in ("deserialize", "serialize", "serialize_conv") and c[2] == 0]
+    heavy = [c for c in calls if c[0] in ("deserialize", "serialize", "serialize_conv", "serialize_any") and c[2] == 0]
     schema = [c for c in calls if c[0] in ("dschema", "sschema")]
     progs = []
     same_dir = rng.random() < 0.6  # most batches: every thread starts in the same direction (shared recursion dictionary)
-    first_op = rng.choice(["deserialize", "serialize"])
+    first_op = rng.choice(["deserialize", "serialize", "serialize_any"])
     for i in range(nthreads):
         if schema and rng.random() < 0.3:  # schema generation as the very first use (it never waits for an analysis)
             cand = schema
@@ -638,10 +642,10 @@ def stress(state, workload, n_clusters, yield_p, until):
 
 
 # ---------------------------------------------------------------------------------------------- (b) systematic schedules
-SCHED_SHAPES = ["mutual2", "mutual3", "self", "tailcycle", "nested", "mutual2list", "unionrec", "convreg", "convlazy", "recconv", "fieldconv", "lazyrec", "validated",
+SCHED_SHAPES = ["mutual2", "mutual3", "self", "tailcycle", "nested", "mutual2list", "unionrec", "convreg", "convlazy", "recconv", "fieldconv", "lazyrec", "validated", "mdvalidated",
                 "selftree", "gentree", "plain", "generic"]
 OP_PAIRS = [("deserialize", "deserialize"), ("serialize", "serialize"), ("deserialize", "serialize"), ("dschema", "deserialize"), ("sschema", "serialize"),
-            ("dschema", "dschema"), ("serialize_conv", "serialize_conv")]
+            ("dschema", "dschema"), ("serialize_conv", "serialize_conv"), ("serialize_any", "serialize_any")]
 
 
 def sched_cases(state):
@@ -667,7 +671,7 @@ def prog_for(cl, entry, op):
     """program of one schedule thread: first use through `entry`, then the next member, then every datum through both
     (run-time only: cheap, but they are what makes a mis-compiled method visible)"""
     other = (entry + 1) % cl.n_first
-    op2 = op if op in ("deserialize", "serialize", "serialize_conv") else "deserialize"
+    op2 = op if op in ("deserialize", "serialize", "serialize_conv", "serialize_any") else "deserialize"
     prog = [(op, entry, 0), (op2, other, 0)]
     for e in (entry, other):
         nd = len(cl.data[e]["valid"]) + (len(cl.data[e]["bad"]) if op2 == "deserialize" else 0)
